@@ -6,7 +6,13 @@ Inductive case :=
 | CLazy (p : pipeline) (o : str) (kw : alist) (full : bool) (dag : bool)
     (* Pipeline(p, lazy=True).run(o, full_output=full, kwargs=kw), inside `with construct_dag()` when dag;
        then: call log, evaluate_lazy(result), log, evaluate_lazy(result) again, log, task graph *)
-| CSeq (p : pipeline) (dag : bool) (rs : list request_t).
+| CSeq (p : pipeline) (dag : bool) (rs : list request_t)
+| CBlocks (p : pipeline) (phases : list (bool * list request_t)).
+    (* ONE Pipeline(p, lazy=True) object, several PHASES of requests: a phase is one `with construct_dag()` block
+       (true) or requests outside any block (false; only as the first phase).  A keyword value may be the deferred
+       result of a request of an EARLIER phase.  Every block has its own task graph (and cache); node numbers are the
+       allocation order of all deferred objects of the history.  Observed: as CSeq, and per block the range of the
+       nodes created in it and the recorded edges. *)
     (* ONE Pipeline(p, lazy=True) object; all requests (output, keywords, full_output, evaluate-right-away) in order,
        inside one `with construct_dag()` block when dag; then evaluate_lazy of every returned object.
        Functions with cached=true use the pipeline's LRU cache; inside construct_dag() the task-graph cache is used.
@@ -27,6 +33,29 @@ Definition eval_outcome (st : estate) (x : loutcome) : estate * sx :=
   | LValue a => let '(st1, r) := evaluate body pick st a in (st1, sx_of_result SS r)
   | LFull d => let '(st1, r) := evaluate_dict body pick st d [] in (st1, sx_of_result sx_sorted_dict r)
   end.
+
+
+(* the phases of a CBlocks history: per block (first node, one past the last node, recorded edges) *)
+Fixpoint run_phases (p : pipeline) (ps : pstate) (outs : list (result loutcome)) (phs : list (bool * list request_t))
+  : pstate * list (result loutcome) * list (nat * nat * list (nat * nat)) :=
+  match phs with
+  | [] => (ps, outs, [])
+  | (dagon, rs) :: t =>
+      let ps0 := if dagon then {| pheap := pheap ps; pdag := []; pcache := []; plog := plog ps |} else ps in
+      let res := map (fun r => match r with Ok (LValue a) => Some a | _ => None end) outs in
+      let '(ps1, os) := run_requests_t body pick p dagon ps0 res rs in
+      let '(ps2, outs2, bl) := run_phases p ps1 (outs ++ os) t in
+      (ps2, outs2,
+       if dagon
+       then (length (pheap ps), length (pheap ps1),
+             fold_left (fun acc e => if existsb (fun x => (fst x =? fst e) && (snd x =? snd e)) acc
+                                     then acc else acc ++ [e]) (pdag ps1) []) :: bl
+       else bl)
+  end.
+
+Definition sx_edges (es : list (nat * nat)) : sx :=
+  SL (map (fun e => SL [SN (fst e); SN (snd e)])
+          (sort (fun a b => (fst a <? fst b) || ((fst a =? fst b) && (snd a <? snd b))) es)).
 
 Definition run (c : case) : sx :=
   match c with
@@ -67,6 +96,23 @@ Definition run (c : case) : sx :=
                | x => x
                end
              else SNone ]
+      else bad_case
+  | CBlocks p phs =>
+      if wf_pipelineb p then
+        let '(ps1, outcomes, blocks) := run_phases p pinit [] phs in
+        let '(ps2, values) := eval_all_t body pick ps1 outcomes in
+        SL [ SL (map (fun r => match r with Ok _ => SS (s "ok") | Err e => SErr e end) outcomes);
+             sx_elog (plog ps1);
+             SL (map (fun v => match v with
+                               | None => SNone
+                               | Some (Ok (inl x)) => SL [SS (s "ok"); SS x]
+                               | Some (Ok (inr d)) => SL [SS (s "ok"); sx_sorted_dict d]
+                               | Some (Err e) => SErr e
+                               end) values);
+             sx_elog (plog ps2);
+             SL [ SL (map (fun nd => SS (node_label nd)) (pheap ps2));
+                  SL (map (fun b => SL [SN (fst (fst b)); SN (snd (fst b)); sx_edges (snd b)]) blocks);
+                  SL (map (fun nd => SL (map SN (sort Nat.ltb (nodup Nat.eq_dec (deps_all nd))))) (pheap ps2)) ] ]
       else bad_case
   end.
 
@@ -263,9 +309,51 @@ Definition seq_ok (p : pipeline) (dag : bool) (rst : list request_t) (obs : sx) 
   | _ => false
   end.
 
+
+(* every block: the recorded graph is acyclic, every edge ends in a node created in the block and is a dependency of
+   that node (a deferred object that evaluating it evaluates - also one created in an earlier phase), and every
+   dependency of every node created in the block is an edge *)
+Definition blocks_ok (g : sx) : bool :=
+  match g with
+  | SL [SL labs; SL blocks; SL dall] =>
+      match optM sx_nats dall with
+      | Some deps =>
+          (length deps =? length labs)
+          && forallb (fun b =>
+               match b with
+               | SL [SI lo; SI hi; SL es] =>
+                   match optM (fun e => match e with SL [SI a; SI b] => Some (Z.to_nat a, Z.to_nat b) | _ => None end) es with
+                   | Some edges =>
+                       let lo := Z.to_nat lo in
+                       let hi := Z.to_nat hi in
+                       acyclicb {| nodes := map unary (seq 0 (length labs));
+                                   edges := map (fun e => (unary (fst e), unary (snd e))) edges |}
+                       && (hi <=? length labs)
+                       && forallb (fun e => (fst e <? length labs) && (lo <=? snd e) && (snd e <? hi)
+                                            && existsb (Nat.eqb (fst e)) (nth (snd e) deps [])) edges
+                       && forallb (fun id => forallb (fun d => existsb (fun e => (fst e =? d) && (snd e =? id)) edges)
+                                                     (nth id deps []))
+                                  (seq lo (hi - lo))
+                   | None => false
+                   end
+               | _ => false
+               end) blocks
+      | None => false
+      end
+  | _ => false
+  end.
+
 Definition spec_ok (c : case) (obs : sx) : bool :=
   match c with
   | CSeq p dag rs => if wf_pipelineb p then seq_ok p dag rs obs else true
+  | CBlocks p phs =>
+      if wf_pipelineb p then
+        match obs with
+        | SL [sts; lg0; vals; lg1; g] =>
+            seq_ok p false (flat_map snd phs) (SL [sts; lg0; vals; lg1; SNone]) && blocks_ok g
+        | _ => false
+        end
+      else true
   | CLazy p o kw full dag =>
       if negb (wf_pipelineb p) then true
       else if ahas kw o || negb (is_output p o) then true
